@@ -186,6 +186,54 @@ impl PartialEq for Big {
 
 /// other value types (zero-sized with universal / empty equality, heap-allocated, large, floats with NaN) and
 /// storages on both sides of 2^8 and 2^16 values
+/// a value of exactly N bytes without drop glue whose equality is NOT bytewise: the first byte compared case-insensitively
+#[derive(Clone, Copy, Debug)]
+struct Sz<const N: usize>([u8; N]);
+impl<const N: usize> PartialEq for Sz<N> {
+    fn eq(&self, o: &Sz<N>) -> bool {
+        self.0[0].to_ascii_lowercase() == o.0[0].to_ascii_lowercase()
+    }
+}
+/// a value of exactly N bytes that is equal to nothing, not even itself
+#[derive(Clone, Copy, Debug)]
+struct Nv<const N: usize>([u8; N]);
+impl<const N: usize> PartialEq for Nv<N> {
+    fn eq(&self, _: &Nv<N>) -> bool {
+        false
+    }
+}
+
+fn sized_types(tier: Tier) -> (u64, Vec<Viol>) {
+    let mut n = 0u64;
+    let mut viols = vec![];
+    let d = tier.pick(4, 5);
+    macro_rules! sizes {
+        ($($n:literal),*) => {$(
+            {
+                let vals = [Sz::<$n>([b'a'; $n]), Sz::<$n>([b'A'; $n]), Sz::<$n>([b'b'; $n])];
+                let nv = [Nv::<$n>([1; $n]), Nv::<$n>([1; $n]), Nv::<$n>([2; $n])];
+                for ops in all_ops(3, d) {
+                    n += 2;
+                    let r = guarded(|| generic_hist(&[], &vals, &ops, &|a: &Sz<$n>, b: &Sz<$n>| a == b));
+                    if let Some(w) = r.unwrap_or_else(|p| Some(format!("x: panic {}", p))) {
+                        if viols.len() < 4 {
+                            viols.push(viol(format!("C19:{}-byte-value-with-its-own-equality:{}", $n, why_class(&w)), format!("Storage of a {}-byte value compared case-insensitively on its first byte, operations {:?}: {}", $n, ops, w), json!({"kind": "c19-sized", "bytes": $n, "ops": ops.iter().map(|(f, i)| json!([f, i])).collect::<Vec<_>>()})));
+                        }
+                    }
+                    let r = guarded(|| generic_hist(&[], &nv, &ops, &|a: &Nv<$n>, b: &Nv<$n>| a.0 == b.0));
+                    if let Some(w) = r.unwrap_or_else(|p| Some(format!("x: panic {}", p))) {
+                        if viols.len() < 4 {
+                            viols.push(viol(format!("C19:{}-byte-never-equal-value:{}", $n, why_class(&w)), format!("Storage of a {}-byte value that equals nothing, operations {:?}: {}", $n, ops, w), json!({"kind": "c19-sized", "bytes": $n, "never_equal": true, "ops": ops.iter().map(|(f, i)| json!([f, i])).collect::<Vec<_>>()})));
+                        }
+                    }
+                }
+            }
+        )*};
+    }
+    sizes!(1, 2, 3, 4, 5, 7, 8, 9, 12, 15, 16, 17, 24, 31, 32, 33, 48, 63, 64, 65, 96, 127, 128, 129, 256);
+    (n, viols)
+}
+
 fn other_types(tier: Tier) -> (u64, Vec<Viol>) {
     use rayon::prelude::*;
     let mut n = 0u64;
@@ -521,6 +569,57 @@ pub fn run(tier: Tier) -> Run {
     run.outcome("continuations_from_prefilled_storages", big_n);
     let (other_n, other_v) = other_types(tier);
     run.add_all(other_v);
+    let (sized_n, sized_v) = sized_types(tier);
+    run.add_all(sized_v);
+    run.outcome("histories_over_value_sizes_1_to_256_bytes", sized_n);
+    let other_n = other_n + sized_n;
+    // storages that come out of the lifter: every function's `blocks` storage of a lifted three-function module is a
+    // storage like any other: appending to it returns the index equal to the number of entries it holds
+    {
+        use crate::model::{enc, header, Arg, Inst};
+        let mut insts = vec![
+            Inst::new("Capability", None, None, vec![Arg::Enum("Capability", 1)]),
+            Inst::new("MemoryModel", None, None, vec![Arg::Enum("AddressingModel", 0), Arg::Enum("MemoryModel", 1)]),
+            Inst::new("TypeVoid", None, Some(10), vec![]),
+            Inst::new("TypeFunction", None, Some(11), vec![Arg::IdRef(10)]),
+        ];
+        let mut next = 20u32;
+        for blocks in [2usize, 3, 1, 2] {
+            insts.push(Inst::new("Function", Some(10), Some(next), vec![Arg::Mask("FunctionControl", 0), Arg::IdRef(11)]));
+            next += 1;
+            for _ in 0..blocks {
+                insts.push(Inst::new("Label", None, Some(next), vec![]));
+                next += 1;
+                insts.push(Inst::new("Return", None, None, vec![]));
+            }
+            insts.push(Inst::new("FunctionEnd", None, None, vec![]));
+        }
+        let mut words = header(0x0001_0300, 0, 100);
+        for i in &insts {
+            words.extend(enc(i));
+        }
+        let r = guarded(|| -> Result<(), String> {
+            let m = rspirv::dr::load_words(&words).map_err(|e| format!("load: {}", e))?;
+            let mut sm = rspirv::lift::LiftContext::convert(&m).map_err(|e| format!("lift: {:?}", e))?;
+            let expect = [2usize, 3, 1, 2];
+            for (fi, f) in sm.functions.iter_mut().enumerate() {
+                let t = f.blocks.append(rspirv::sr::module::Block { arguments: vec![], ops: vec![], terminator: rspirv::sr::ops::Terminator::TerminateRayKHR });
+                if t.index() as usize != expect[fi] {
+                    return Err(format!("function {} of a lifted module has {} blocks; append to its block storage returned index {}", fi, expect[fi], t.index()));
+                }
+                if f.start_block.index() != 0 {
+                    return Err(format!("function {}: start_block has index {}", fi, f.start_block.index()));
+                }
+            }
+            Ok(())
+        });
+        match r {
+            Err(p) => run.add(viol("C19:lifted-storage:panic", format!("appending to the block storage of a lifted function panics: {}", p), json!({"kind": "c19-lifted"}))),
+            Ok(Err(w)) if w.starts_with("load") || w.starts_with("lift") => run.machinery(format!("C19 lifted-storage module: {}", w)),
+            Ok(Err(w)) => run.add(viol("C19:lifted-storage:append-index", w, json!({"kind": "c19-lifted"}))),
+            Ok(Ok(())) => run.outcome("lifted_block_storages", 4),
+        }
+    }
     run.outcome("histories_over_other_value_types_and_large_storages", other_n);
     let big_n = big_n + other_n;
     run.add_all(a.viols.clone());
